@@ -491,13 +491,19 @@ impl<T: Tier> Cfg<T> for M3P2 {
 /// `None` when the point is sent (numerically) to infinity: w = 0 after projection is outside
 /// the statement and not judged
 fn apply_h_opt<F: Field>(h: H<F>, p: [F; 3], w: F) -> Option<[F; 3]> {
+    apply_h_u(h, p, w, 1e-12)
+}
+/// `u`: unit roundoff of the tier being judged: the homogeneous weight must be well above the
+/// rounding noise of its own evaluation, otherwise the point is numerically at infinity
+fn apply_h_u<F: Field>(h: H<F>, p: [F; 3], w: F, u: f64) -> Option<[F; 3]> {
     let r = model::mvec(h, [p[0], p[1], p[2], w]);
     if w.is_zero() || r[3] == F::one() {
         return Some([r[0], r[1], r[2]]);
     }
     let scale = r.iter().fold(0.0f64, |a, x| a.max(x.approx().abs()));
     let wv = r[3].approx();
-    if !(wv.is_finite() && scale.is_finite()) || wv.abs() <= 1e-9 * scale.max(1e-300) || r[3].is_zero() {
+    let noise = 4096.0 * u * (r[3].err() + wv.abs());
+    if !(wv.is_finite() && scale.is_finite()) || wv.abs() <= noise || wv.abs() <= 1e-9 * scale.max(1e-300) || r[3].is_zero() {
         return None;
     }
     Some([r[0] / r[3], r[1] / r[3], r[2] / r[3]])
@@ -538,7 +544,7 @@ fn invariant<T: Tier, C: Cfg<T>>(ctx: &mut Ctx, s: &C::Tr, gens: &[C::Tr]) {
     let (one, zero) = (T::M::one(), T::M::zero());
     ctx.out(&keys(&C::comps(s)));
     for p in &ps {
-        match apply_h_opt(hs, lift_v(*p), one) {
+        match apply_h_u(hs, lift_v(*p), one, T::U) {
             Some(img) => {
                 eq_vc::<T, 3>(ctx, &key(&format!("{}/transform_point", C::NAME)), C::tp(s, *p), img, slack);
             }
@@ -598,11 +604,11 @@ fn invariant<T: Tier, C: Cfg<T>>(ctx: &mut Ctx, s: &C::Tr, gens: &[C::Tr]) {
         // undoes the transform on points and vectors
         let fwd_p = C::tp(s, *p);
         let fwd_v = C::tv(s, *p);
-        let fwd_m = match apply_h_opt(hs, lift_v(*p), one) {
+        let fwd_m = match apply_h_u(hs, lift_v(*p), one, T::U) {
             Some(x) => x,
             None => continue,
         };
-        let back_p = match apply_h_opt(hi, fwd_m, one) {
+        let back_p = match apply_h_u(hi, fwd_m, one, T::U) {
             Some(x) => x,
             None => continue,
         };
@@ -630,7 +636,7 @@ fn invariant<T: Tier, C: Cfg<T>>(ctx: &mut Ctx, s: &C::Tr, gens: &[C::Tr]) {
 }
 
 fn system<T: Tier, C: Cfg<T>>(rep: &mut Report) {
-    let depth = rep.pick(2, 4);
+    let depth = rep.pick(3, 4);
     let gens = C::gens(!T::EXACT);
     let ng = gens.len();
     let mk = |t: C::Tr| Keyed { key: keys(&C::comps(&t)), val: t };
@@ -678,11 +684,14 @@ fn system<T: Tier, C: Cfg<T>>(rep: &mut Report) {
                 let step_v = C::tv(second, C::tv(first, p));
                 let mv = apply_h(want, lift_v(p), T::M::zero());
                 // points: judged unless some stage sends the probe to infinity
-                let stage1 = apply_h_opt(C::h(first), lift_v(p), T::M::one());
-                let stage2 = stage1.and_then(|q| apply_h_opt(C::h(second), q, T::M::one()));
-                if let (Some(mp), Some(_)) = (apply_h_opt(want, lift_v(p), T::M::one()), stage2) {
+                let stage1 = apply_h_u(C::h(first), lift_v(p), T::M::one(), T::U);
+                let stage2 = stage1.and_then(|q| apply_h_u(C::h(second), q, T::M::one(), T::U));
+                if let (Some(mp), Some(sp)) = (apply_h_u(want, lift_v(p), T::M::one(), T::U), stage2) {
                     eq_vc::<T, 3>(ctx, &key(&format!("{}/concat/point", C::NAME)), C::tp(&res, p), mp, slack * 4.0);
-                    eq_vc::<T, 3>(ctx, &key(&format!("{}/concat/point-stepwise", C::NAME)), step_p, mp, slack * 4.0);
+                    // the step-wise route has its own conditioning (the intermediate homogeneous divide):
+                    // its error bound is the one the model accumulates along that route
+                    let via: [T::M; 3] = std::array::from_fn(|j| mp[j].with_err_of(sp[j]));
+                    eq_vc::<T, 3>(ctx, &key(&format!("{}/concat/point-stepwise", C::NAME)), step_p, via, slack * 4.0);
                 } else {
                     ctx.branch("point-at-infinity-not-judged");
                 }
